@@ -15,7 +15,7 @@ structure OutPipe where
   cap : Nat
   hold : Bool := false
   inflight : Option Msg := none  -- handed to the pipe's SendMsg, which has not returned yet
-deriving Repr
+deriving Repr, BEq
 
 namespace OutPipe
 
